@@ -496,6 +496,52 @@ where
     }
 }
 
+/// Direct access for the external verification harness.
+#[cfg(alpenglow_verif)]
+impl RepairRequest {
+    /// Creates a repair request as sent by `sender`.
+    #[must_use]
+    pub const fn verif_new(sender: ValidatorIndex, req_type: RepairRequestType) -> Self {
+        Self { sender, req_type }
+    }
+
+    /// Returns the type of this request.
+    #[must_use]
+    pub const fn verif_req_type(&self) -> &RepairRequestType {
+        &self.req_type
+    }
+}
+
+/// Direct access for the external verification harness.
+#[cfg(alpenglow_verif)]
+impl<N: RepairResponderNetwork> RepairRequestHandler<N> {
+    /// Answers a single repair request.
+    pub async fn verif_answer_request(&self, request: RepairRequest) -> std::io::Result<()> {
+        self.answer_request(request).await
+    }
+}
+
+/// Direct access for the external verification harness.
+#[cfg(alpenglow_verif)]
+impl<N: RepairRequesterNetwork> Repair<N> {
+    /// Handles a single repair response.
+    pub async fn verif_handle_response(&mut self, response: RepairResponse) {
+        self.handle_response(response).await;
+    }
+
+    /// Returns the requests that are currently outstanding.
+    #[must_use]
+    pub fn verif_outstanding(&self) -> Vec<RepairRequestType> {
+        self.outstanding_requests.values().cloned().collect()
+    }
+
+    /// Returns the number of proven slice roots currently known.
+    #[must_use]
+    pub fn verif_known_slice_roots(&self) -> usize {
+        self.slice_roots.len()
+    }
+}
+
 #[cfg(test)]
 mod tests {
     use std::collections::BTreeSet;
